@@ -1,5 +1,6 @@
 import CwPlus.Lemmas.Cw3Flex
 import CwPlus.Lemmas.Cw3StatusTotal
+import CwPlus.Lemmas.Cw3FlexPool
 /-!
 # C15 — cw3-flex-multisig proposal deposits
 
@@ -12,6 +13,10 @@ The last clause is FALSE of the code (defect D6, open known finding `C15/flex/de
 a proposal whose *stored* status is `Rejected` (voted down before expiry, or created already expired) can
 never be closed.  It is proved here for proposals that expire while stored `Open`
 (`failed_deposit_recoverable_partial`), and the counterexample is machine-checked (`C15_counterexample`).
+
+Section (7) adds the accounting of the deposit *pool* across concurrent proposals at world level: `holdings`, `owed`,
+`deposits_taken_exact`, `pool_covers_owed_if_unspent` (guards `External`, `NoSpend`, `NoGrant`), the dedicated dispatch
+induction `pool_dispatch`, `refund_never_fails_for_lack_of_funds_guarded`, and the counterexample `pool_guard_necessary`.
 
 Model: `Model/Cw3Flex.lean`; a handler returns `List Out`: `Out.bank` / `Out.cw20Transfer` are the refund
 messages, `Out.cw20TransferFrom` takes a cw20 deposit, `Out.msg m` is a message of the proposal itself.
@@ -776,5 +781,1103 @@ example :
     ((tx Cex.noExt 10 w ⟨11, 0⟩ (.flex "x" [] (.execute 1))).toOption.map fun w' =>
       (balance w' "a" "ucosm", balance w' "ms" "ucosm", handled w'.log 1)) = some (20, 0, 1) := by
   decide
+
+/-! ## (7) the deposit pool across concurrent proposals, at world level
+
+Ghost quantities, all read off the world (`w.bank`, `w.token`, the ghost log and the proposal map):
+
+* `holdings dep w` — what the multisig holds of the deposit denomination (native: its bank balance of `dep.denom`;
+  cw20: its balance in the world's token contract),
+* `unreturned w` — the proposals whose deposit was taken and not returned: created (`1..count`) and with no
+  `Execute`/`Close` in the committed history (`handled w.log id = 0`; by `refund_only_to_proposer` only those calls
+  ever return a deposit),
+* `owed w` — Σ of the recorded deposits of the `unreturned` proposals (this includes the proposals stuck by D6:
+  their deposit sits in the pool too, so the statement below is the stronger one).
+-/
+
+/-- What the multisig holds of the deposit denomination. -/
+def holdings (dep : Deposit) (w : World) : Nat :=
+  if dep.cw20 then Cw20.bal w.token w.self else balance w w.self dep.denom
+
+/-- The proposals whose deposit was taken and never returned: ids `1..count` without `Execute`/`Close` in the log. -/
+def unreturned (w : World) : List Nat := (List.range' 1 w.flex.core.count).filter (fun id => handled w.log id == 0)
+
+/-- The deposit amount recorded in proposal `id` (0 when there is none). -/
+def depositOf (c : Core) (id : Nat) : Nat :=
+  match c.proposals.get? id with
+  | some p => (p.deposit.map (·.amount)).getD 0
+  | none => 0
+
+/-- **Σ of the deposits still owed**: over the proposals whose deposit was taken and not returned. -/
+def owed (w : World) : Nat := ((unreturned w).map (depositOf w.flex.core)).sum
+
+/-- Number of ids `1..n` without `Execute`/`Close` in the log (recursive form of `(unreturned w).length`). -/
+def pend (log : List Event) : Nat → Nat
+  | 0 => 0
+  | n + 1 => pend log n + (if handled log (n + 1) = 0 then 1 else 0)
+
+theorem pend_congr {log log' : List Event} : ∀ n, (∀ id, 1 ≤ id → id ≤ n → handled log' id = handled log id) →
+    pend log' n = pend log n
+  | 0, _ => rfl
+  | n + 1, h => by
+    simp only [pend]
+    rw [pend_congr n (fun id h1 h2 => h id h1 (by omega)), h (n + 1) (by omega) (Nat.le_refl _)]
+
+/-- One id in range goes from "never handled" to "handled", all others keep their count: one proposal less pending. -/
+theorem pend_mark {log log' : List Event} {id0 : Nat} (h0 : handled log id0 = 0) (h1 : handled log' id0 ≠ 0)
+    (hrest : ∀ id, id ≠ id0 → handled log' id = handled log id) :
+    ∀ n, 1 ≤ id0 → id0 ≤ n → pend log n = pend log' n + 1
+  | 0, h, h' => by omega
+  | n + 1, h, h' => by
+    simp only [pend]
+    by_cases e : id0 = n + 1
+    · subst e
+      rw [pend_congr n (fun id _ h2 => hrest id (by omega))]
+      simp [h0, h1]
+    · rw [pend_mark h0 h1 hrest n h (by omega), hrest (n + 1) (fun x => e x.symm)]
+      omega
+
+theorem sum_filter_range (log : List Event) (f : Nat → Nat) (a : Nat) :
+    ∀ n, (∀ id, 1 ≤ id → id ≤ n → f id = a) →
+      (((List.range' 1 n).filter (fun id => handled log id == 0)).map f).sum = a * pend log n
+  | 0, _ => by simp [pend]
+  | n + 1, h => by
+    rw [List.range'_1_concat, List.filter_append, List.map_append, List.sum_append,
+      sum_filter_range log f a n (fun id h1 h2 => h id h1 (by omega))]
+    simp only [pend]
+    by_cases e : handled log (1 + n) = 0
+    · have e' : handled log (n + 1) = 0 := by rw [Nat.add_comm]; exact e
+      have := h (1 + n) (by omega) (by omega)
+      simp [e, e', this, Nat.mul_add]
+    · have e' : ¬ handled log (n + 1) = 0 := by rw [Nat.add_comm]; exact e
+      simp [e, e']
+
+/-- Under `Inv` every stored proposal carries the configured deposit, so Σ owed = amount × number of pending ids. -/
+theorem owed_eq {dep : Deposit} {w : World} (hi : Inv w.flex) (hd : w.flex.cfg.deposit = some dep) :
+    owed w = dep.amount * pend w.log w.flex.core.count := by
+  unfold owed unreturned
+  refine sum_filter_range w.log _ dep.amount _ (fun id h1 h2 => ?_)
+  have := (hi.wf.ids id).mpr ⟨h1, h2⟩
+  cases hp : w.flex.core.proposals.get? id with
+  | none => rw [hp] at this; cases this
+  | some p => simp [depositOf, hp, hi.propDeposit id p hp, hd]
+
+theorem unreturned_length (w : World) : (unreturned w).length = pend w.log w.flex.core.count := by
+  have := sum_filter_range w.log (fun _ => 1) 1 w.flex.core.count (fun _ _ _ => rfl)
+  have hone : ∀ l : List Nat, (l.map (fun _ => 1)).sum = l.length := by
+    intro l; induction l with
+    | nil => rfl
+    | cons a r ih => simp [ih]; omega
+  unfold unreturned
+  rw [← hone, this, Nat.one_mul]
+
+/-- `dep.amount ×` the number of proposals whose deposit was taken and not returned (`= owed w`, `owed_eq`). -/
+def due (dep : Deposit) (w : World) : Nat := dep.amount * pend w.log w.flex.core.count
+
+/-- A proposal message that spends the deposit denomination out of the multisig.  In the message language of the model
+(`Cw3Core.Msg`: bank send, calls back into the multisig, group update, failing call) only a `BankMsg::Send` of the
+native deposit denom does; no message of the language reaches the cw20 token, so with a cw20 deposit nothing spends. -/
+def spends (dep : Deposit) : Msg → Bool
+  | .bank _ _ denom => !dep.cw20 && denom == dep.denom
+  | _ => false
+
+/-- Some proposal that was executed in the committed history carries a message spending the deposit denomination. -/
+def Dirty (dep : Deposit) (w : World) : Prop :=
+  ∃ id p, Event.executed id ∈ w.log ∧ w.flex.core.proposals.get? id = some p ∧ ∃ m ∈ p.msgs, spends dep m = true
+
+/-- **The guard of `pool_covers_owed_if_unspent`**, stated on the executed proposals only: no proposal with an
+`executed` event in the committed history has a message that spends the deposit denomination. -/
+def NoSpend (dep : Deposit) (w : World) : Prop :=
+  ∀ id p, Event.executed id ∈ w.log → w.flex.core.proposals.get? id = some p → ∀ m ∈ p.msgs, spends dep m = false
+
+theorem not_dirty_of_noSpend {dep : Deposit} {w : World} (h : NoSpend dep w) : ¬ Dirty dep w := by
+  rintro ⟨id, p, h1, h2, m, hm, hs⟩
+  rw [h id p h1 h2 m hm] at hs; cases hs
+
+/-- What dispatching one returned message may take out of the pool. -/
+def outDebit (dep : Deposit) : Out → Nat
+  | .bank _ amt denom => if dep.cw20 = false ∧ denom = dep.denom then amt else 0
+  | .cw20Transfer _ _ amt => if dep.cw20 = true then amt else 0
+  | _ => 0
+
+/-- What dispatching one returned message brings into the pool (`TransferFrom` to the multisig itself). -/
+def outCredit (dep : Deposit) (self : Addr) : Out → Nat
+  | .cw20TransferFrom _ _ to amt => if dep.cw20 = true ∧ to = self then amt else 0
+  | _ => 0
+
+def debits (dep : Deposit) (outs : List Out) : Nat := (outs.map (outDebit dep)).sum
+def credits (dep : Deposit) (self : Addr) (outs : List Out) : Nat := (outs.map (outCredit dep self)).sum
+def cleanOuts (dep : Deposit) (outs : List Out) : Prop := ∀ m, Out.msg m ∈ outs → spends dep m = false
+
+@[simp] theorem debits_nil (dep : Deposit) : debits dep [] = 0 := rfl
+@[simp] theorem credits_nil (dep : Deposit) (self : Addr) : credits dep self [] = 0 := rfl
+@[simp] theorem debits_cons (dep : Deposit) (o : Out) (r : List Out) : debits dep (o :: r) = outDebit dep o + debits dep r := by
+  simp [debits]
+@[simp] theorem credits_cons (dep : Deposit) (self : Addr) (o : Out) (r : List Out) :
+    credits dep self (o :: r) = outCredit dep self o + credits dep self r := by
+  simp [credits]
+theorem cleanOuts_nil (dep : Deposit) : cleanOuts dep [] := by intro m h; cases h
+theorem cleanOuts_tail {dep : Deposit} {o : Out} {r : List Out} (h : cleanOuts dep (o :: r)) : cleanOuts dep r :=
+  fun m hm => h m (List.mem_cons_of_mem _ hm)
+
+theorem debits_msgs (dep : Deposit) (msgs : List Msg) : debits dep (msgs.map Out.msg) = 0 := by
+  induction msgs with
+  | nil => rfl
+  | cons m r ih => simp [outDebit, ih]
+
+theorem credits_hooks (dep : Deposit) (self : Addr) (hs : List Addr) : credits dep self (hs.map Out.groupHook) = 0 := by
+  induction hs with
+  | nil => rfl
+  | cons m r ih => simp [outCredit, ih]
+
+theorem debits_hooks (dep : Deposit) (hs : List Addr) : debits dep (hs.map Out.groupHook) = 0 := by
+  induction hs with
+  | nil => rfl
+  | cons m r ih => simp [outDebit, ih]
+
+theorem cleanOuts_hooks (dep : Deposit) (hs : List Addr) : cleanOuts dep (hs.map Out.groupHook) := by
+  intro m hm; simp at hm
+
+theorem outDebit_refund (dep : Deposit) (a : Addr) : outDebit dep (refundMsg dep a) = dep.amount := by
+  unfold refundMsg
+  cases h : dep.cw20 <;> simp [outDebit, h]
+
+/-- The part of the world invariant that does not mention balances: the ghost invariant of clause 3, the configured
+deposit, and — for a cw20 deposit — the multisig has granted no allowance on the token. -/
+structure PoolGood (dep : Deposit) (w : World) : Prop where
+  ghost : GhostInv w
+  cfg : w.flex.cfg.deposit = some dep
+  grant : dep.cw20 = true → NoGrant w.token w.self
+
+/-- A fresh id was never handled. -/
+theorem handled_fresh {w : World} (hq : GhostInv w) {id : Nat} (hid : w.flex.core.count < id) : handled w.log id = 0 := by
+  obtain ⟨hle, hfin⟩ := hq.2 id
+  rcases Nat.lt_or_ge (handled w.log id) 1 with h | h
+  · omega
+  · have := hfin (by omega)
+    simp [isFinal, hq.1.wf.fresh hid] at this
+
+theorem dirty_flex {dep : Deposit} {w : World} {g : Cw4Group.State} {self : Addr} {blk : Block} {snd : Addr}
+    {funds : List Coin} {em : ExecMsg} {s' : State} {out : List Out} (hi : Inv w.flex)
+    (he : execute w.flex g self blk snd funds em = .ok (s', out)) (hd : Dirty dep w) :
+    Dirty dep { w with flex := s', log := w.log ++ [eventOf w.flex snd em] } := by
+  obtain ⟨id, p, h1, h2, m, hm, hs⟩ := hd
+  obtain ⟨p', hp', hf, _⟩ := (execute_later hi he).props id p h2
+  have hmsgs : p'.msgs = p.msgs := by have := congrArg Proposal.msgs hf; exact this
+  exact ⟨id, p', List.mem_append_left _ h1, hp', m, hmsgs ▸ hm, hs⟩
+
+/-- **One handler call, in pool terms.**  Whatever the call, with `info.funds` already credited to the multisig: either
+an executed proposal spends the deposit denomination, or the returned messages contain no spending proposal message and
+the pool — counting the `TransferFrom` still to be dispatched as incoming and the refunds still to be dispatched as
+outgoing — still covers what is owed after the call. -/
+theorem pool_flex {dep : Deposit} {w : World} {blk : Block} {snd : Addr} {funds : List Coin} {em : ExecMsg}
+    {s' : State} {out : List Out} (hg : PoolGood dep w)
+    (he : execute w.flex w.group w.self blk snd funds em = .ok (s', out)) :
+    PoolGood dep { w with flex := s', log := w.log ++ [eventOf w.flex snd em] } ∧
+    ∀ C K, (Dirty dep w ∨ due dep w + K + (if dep.cw20 then 0 else fundsOf dep.denom funds) ≤ holdings dep w + C) →
+      Dirty dep { w with flex := s', log := w.log ++ [eventOf w.flex snd em] } ∨
+      (cleanOuts dep out ∧
+        due dep { w with flex := s', log := w.log ++ [eventOf w.flex snd em] } + debits dep out + K ≤
+          holdings dep w + credits dep w.self out + C) := by
+  have hi := hg.ghost.1
+  obtain ⟨hcfg, hc⟩ := execute_cases he
+  refine ⟨⟨ghost_flex hg.ghost he, by rw [← hg.cfg]; exact congrArg Config.deposit hcfg, hg.grant⟩, ?_⟩
+  intro C K hpre
+  rcases hpre with hdirty | hpre
+  · exact Or.inl (dirty_flex hi he hdirty)
+  simp only [due] at hpre ⊢
+  rcases hc with ⟨t, d, msgs, latest, w0, total, id0, hm, _, _, _, _, hp⟩ | ⟨id0, v, hm, hout, hv⟩ |
+    ⟨id0, p, msgs, hm, hpp, hex, hout⟩ | ⟨id0, p, hm, hpp, hcl, hout⟩ | ⟨hm, _, hs, hout⟩
+  · -- propose
+    subst hm
+    right
+    obtain ⟨_, _, _, _, hid, _, hc'⟩ := propose_spec hp
+    have hcount : s'.core.count = w.flex.core.count + 1 := by rw [hc', hid]
+    have h0 := handled_fresh hg.ghost (id := w.flex.core.count + 1) (by omega)
+    have hpend : pend (w.log ++ [eventOf w.flex snd (.propose t d msgs latest)]) (w.flex.core.count + 1) =
+        pend w.log w.flex.core.count + 1 := by
+      simp only [pend]
+      rw [pend_congr (log := w.log) _ (fun id _ _ => by simp [handled_append, eventOf])]
+      simp [handled_append, eventOf, h0]
+    have hx := (propose_takes_exact_deposit hi he).1
+    simp only [hg.cfg] at hx
+    simp only [hcount, hpend, Nat.mul_add, Nat.mul_one]
+    by_cases hcw : dep.cw20 = true
+    · simp only [hcw, if_true] at hx hpre
+      subst hx
+      refine ⟨fun m hm => by simp at hm, ?_⟩
+      simp [outDebit, outCredit, hcw]
+      omega
+    · have hcw' : dep.cw20 = false := by simpa using hcw
+      simp only [hcw', Bool.false_eq_true, if_false] at hx hpre
+      obtain ⟨hf, rfl⟩ := hx
+      subst hf
+      refine ⟨cleanOuts_nil dep, ?_⟩
+      simp [fundsOf] at hpre ⊢
+      omega
+  · -- vote
+    subst hm; subst hout
+    right
+    obtain ⟨_, _, _, _, _, _, _, _, _, _, _, _, hc'⟩ := vote_spec hv
+    have hcount : s'.core.count = w.flex.core.count := by rw [hc']
+    rw [hcount, pend_congr (log := w.log) _ (fun id _ _ => by simp [handled_append, eventOf])]
+    exact ⟨cleanOuts_nil dep, by simp; omega⟩
+  · -- execute
+    subst hm
+    obtain ⟨p0, hp0, hst, _, hmsgs, hc'⟩ := execute_spec hex
+    rw [hpp] at hp0; cases hp0
+    have hcount : s'.core.count = w.flex.core.count := by rw [hc']
+    have hrange := (hi.wf.ids id0).mp (by rw [hpp]; rfl)
+    have h0 : handled w.log id0 = 0 := by
+      obtain ⟨hle, hfin⟩ := hg.ghost.2 id0
+      rcases Nat.lt_or_ge (handled w.log id0) 1 with h | h
+      · omega
+      · have := hfin (by omega)
+        have hnf := passed_not_final hst
+        simp [isFinal, hpp] at this
+        rcases this with h | h <;> simp_all
+    have hpend := pend_mark (log := w.log) (log' := w.log ++ [eventOf w.flex snd (.execute id0)]) h0
+      (by simp [handled_append, eventOf, h0])
+      (fun id hne => by
+        have : ¬ id0 = id := fun e => hne e.symm
+        simp [handled_append, eventOf, this]) _ hrange.1 hrange.2
+    have hdep : p.deposit = some dep := by rw [hi.propDeposit id0 p hpp, hg.cfg]
+    by_cases hclean : ∀ m ∈ p.msgs, spends dep m = false
+    · right
+      subst hout hmsgs
+      refine ⟨?_, ?_⟩
+      · intro m hm
+        simp [hdep] at hm
+        rcases hm with hm | hm
+        · unfold refundMsg at hm; split at hm <;> cases hm
+        · exact hclean m hm
+      · simp only [hdep, List.singleton_append, debits_cons, credits_cons, outDebit_refund, debits_msgs, hcount]
+        have hcr : credits dep w.self (p.msgs.map Out.msg) = 0 := by
+          induction p.msgs with
+          | nil => rfl
+          | cons m r ih => simp [outCredit, ih]
+        have hcr0 : outCredit dep w.self (refundMsg dep p.proposer) = 0 := by
+          unfold refundMsg; split <;> rfl
+        rw [hcr, hcr0]
+        rw [hpend] at hpre
+        simp only [Nat.mul_add, Nat.mul_one] at hpre
+        omega
+    · left
+      have : ∃ m ∈ p.msgs, spends dep m = true := by
+        apply Classical.byContradiction
+        intro hno
+        apply hclean
+        intro m hm
+        cases hs : spends dep m with
+        | false => rfl
+        | true => exact absurd ⟨m, hm, hs⟩ hno
+      obtain ⟨m, hm, hs⟩ := this
+      refine ⟨id0, { p with status := .executed }, by simp [eventOf], ?_, m, hm, hs⟩
+      rw [hc']; exact AMap.get?_set_eq _ _ _
+  · -- close
+    subst hm
+    right
+    obtain ⟨p0, st, hp0, hne, hnr, _, _, _, _, hc'⟩ := close_spec hcl
+    rw [hpp] at hp0; cases hp0
+    have hcount : s'.core.count = w.flex.core.count := by rw [hc']
+    have hrange := (hi.wf.ids id0).mp (by rw [hpp]; rfl)
+    have h0 : handled w.log id0 = 0 := by
+      obtain ⟨hle, hfin⟩ := hg.ghost.2 id0
+      rcases Nat.lt_or_ge (handled w.log id0) 1 with h | h
+      · omega
+      · have := hfin (by omega)
+        simp [isFinal, hpp] at this
+        rcases this with h | h <;> simp_all
+    have hpend := pend_mark (log := w.log) (log' := w.log ++ [eventOf w.flex snd (.close id0)]) h0
+      (by simp [handled_append, eventOf, h0])
+      (fun id hne => by
+        have : ¬ id0 = id := fun e => hne e.symm
+        simp [handled_append, eventOf, this]) _ hrange.1 hrange.2
+    have hdep : p.deposit = some dep := by rw [hi.propDeposit id0 p hpp, hg.cfg]
+    subst hout
+    rw [hpend] at hpre
+    simp only [Nat.mul_add, Nat.mul_one] at hpre
+    simp only [hdep, hcount]
+    split
+    · refine ⟨?_, ?_⟩
+      · intro m hm
+        simp at hm
+        unfold refundMsg at hm; split at hm <;> cases hm
+      · have hcr0 : outCredit dep w.self (refundMsg dep p.proposer) = 0 := by
+          unfold refundMsg; split <;> rfl
+        simp only [debits_cons, credits_cons, outDebit_refund, debits_nil, credits_nil, hcr0]
+        omega
+    · exact ⟨cleanOuts_nil dep, by simp; omega⟩
+  · -- hook
+    subst hm; subst hout; subst hs
+    right
+    rw [pend_congr (log := w.log) _ (fun id _ _ => by simp [handled_append, eventOf])]
+    exact ⟨cleanOuts_nil dep, by simp; omega⟩
+
+/-- The inequality carried through a dispatch: owed + outgoing still to be dispatched (+ `K`) ≤ holdings + incoming
+still to be dispatched (+ `C`). -/
+def Covered (dep : Deposit) (w : World) (outs : List Out) (C K : Nat) : Prop :=
+  due dep w + debits dep outs + K ≤ holdings dep w + credits dep w.self outs + C
+
+/-- What dispatching the first message `o` of `o :: rest` from `w` to `w1` has to establish. -/
+def StepOk (dep : Deposit) (w : World) (o : Out) (rest : List Out) (w1 : World) : Prop :=
+  PoolGood dep w1 ∧ w1.self = w.self ∧ (Dirty dep w → Dirty dep w1) ∧
+    ∀ C K, cleanOuts dep (o :: rest) → Covered dep w (o :: rest) C K → Dirty dep w1 ∨ Covered dep w1 rest C K
+
+/-- A leaf of the dispatch (bank send / token call): multisig state, log and address unchanged, and the pool moved by
+no more than the message's debit resp. by at least its credit. -/
+theorem step_leaf {dep : Deposit} {w w1 : World} {o : Out} {rest : List Out} (hg1 : PoolGood dep w1)
+    (hf : w1.flex = w.flex) (hl : w1.log = w.log) (hs : w1.self = w.self)
+    (hh : holdings dep w + outCredit dep w.self o ≤ holdings dep w1 + outDebit dep o) : StepOk dep w o rest w1 := by
+  refine ⟨hg1, hs, ?_, ?_⟩
+  · rintro ⟨id, p, h1, h2, h3⟩
+    exact ⟨id, p, hl ▸ h1, hf ▸ h2, h3⟩
+  · intro C K _ hle
+    right
+    simp only [Covered, debits_cons, credits_cons, due, hf, hl, hs] at hle ⊢
+    omega
+
+/-- **The dedicated dispatch induction** (the generic `dispatch_inv` quantifies over arbitrary bank and token changes
+and cannot carry a statement about balances).  Over the dispatch of any list of returned messages, depth-first with all
+nested handler calls: the balance-free invariant is kept, the multisig's address is kept, "an executed proposal spends
+the deposit denomination" is kept, and — when the list contains no spending proposal message — the inequality
+"owed + outgoing still to be dispatched ≤ holdings + incoming still to be dispatched" is carried from the start to the
+end, unless an executed proposal spends the deposit denomination. -/
+theorem pool_dispatch (ext : Ext) (dep : Deposit) (blk : Block) :
+    ∀ fuel w outs w', PoolGood dep w → dispatch ext fuel w blk outs = .ok w' →
+      PoolGood dep w' ∧ w'.self = w.self ∧ (Dirty dep w → Dirty dep w') ∧
+      ∀ C K, cleanOuts dep outs → Covered dep w outs C K → Dirty dep w' ∨ Covered dep w' [] C K := by
+  intro fuel
+  induction fuel with
+  | zero =>
+    intro w outs w' hg h
+    cases outs with
+    | nil => simp [dispatch] at h; subst h; exact ⟨hg, rfl, id, fun _ _ _ h => Or.inr h⟩
+    | cons o rest => simp [dispatch] at h
+  | succ fuel ih =>
+    intro w outs w' hg h
+    cases outs with
+    | nil => simp [dispatch] at h; subst h; exact ⟨hg, rfl, id, fun _ _ _ h => Or.inr h⟩
+    | cons o rest =>
+      simp only [dispatch, Res.bind_ok] at h
+      obtain ⟨w1, h1, h2⟩ := h
+      -- it suffices to treat the first message
+      suffices hstep : StepOk dep w o rest w1 by
+        obtain ⟨hg1, hs1, hd1, hsl1⟩ := hstep
+        obtain ⟨hg', hs', hd', hsl'⟩ := ih w1 rest w' hg1 h2
+        refine ⟨hg', hs'.trans hs1, fun h => hd' (hd1 h), fun C K hc hcov => ?_⟩
+        rcases hsl1 C K hc hcov with h | h
+        · exact Or.inl (hd' h)
+        · exact hsl' C K (cleanOuts_tail hc) h
+      -- a nested handler call followed by the dispatch of what it returned
+      have nested : ∀ (snd : Addr) (em : ExecMsg) (s' : State) (out : List Out),
+          outDebit dep o = 0 → outCredit dep w.self o = 0 →
+          execute w.flex w.group w.self blk snd [] em = .ok (s', out) →
+          dispatch ext fuel { w with flex := s', log := w.log ++ [eventOf w.flex snd em] } blk out = .ok w1 →
+          StepOk dep w o rest w1 := by
+        intro snd em s' out hd0 hc0 he hd
+        obtain ⟨hg2, hfl⟩ := pool_flex hg he
+        obtain ⟨hg1, hs1, hdd, hsl⟩ := ih _ out w1 hg2 hd
+        refine ⟨hg1, hs1, fun h => hdd (dirty_flex hg.ghost.1 he h), fun C K hc hcov => ?_⟩
+        have hpre : Dirty dep w ∨ due dep w + (K + debits dep rest) + (if dep.cw20 then 0 else fundsOf dep.denom []) ≤
+            holdings dep w + (C + credits dep w.self rest) := by
+          right
+          simp only [Covered, debits_cons, credits_cons, hd0, hc0] at hcov
+          simp; omega
+        rcases hfl _ _ hpre with h | ⟨hc2, hle⟩
+        · exact Or.inl (hdd h)
+        · rcases hsl (C + credits dep w.self rest) (K + debits dep rest) hc2
+            (by simpa [Covered, due, holdings, balance] using hle) with h | hle'
+          · exact Or.inl h
+          · right
+            simp only [Covered, debits_nil, credits_nil, hs1] at hle' ⊢
+            omega
+      -- a group call followed by the dispatch of the hooks it returned
+      have grouped : ∀ (g' : Cw4Group.State) (hooks : List Addr),
+          outDebit dep o = 0 → outCredit dep w.self o = 0 →
+          dispatch ext fuel { w with group := g', log := w.log ++ [.groupWrite blk.height] } blk
+            (hooks.map Out.groupHook) = .ok w1 → StepOk dep w o rest w1 := by
+        intro g' hooks hd0 hc0 hd
+        have hg2 : PoolGood dep { w with group := g', log := w.log ++ [.groupWrite blk.height] } := by
+          refine ⟨⟨hg.ghost.1, fun id => ?_⟩, hg.cfg, hg.grant⟩
+          have := hg.ghost.2 id
+          simpa [handled_append] using this
+        obtain ⟨hg1, hs1, hdd, hsl⟩ := ih _ _ w1 hg2 hd
+        refine ⟨hg1, hs1, fun h => hdd ?_, fun C K hc hcov => ?_⟩
+        · obtain ⟨id, p, h1, h2, h3⟩ := h
+          exact ⟨id, p, List.mem_append_left _ h1, h2, h3⟩
+        · have hpend : pend (w.log ++ [Event.groupWrite blk.height]) w.flex.core.count = pend w.log w.flex.core.count :=
+            pend_congr _ (fun id _ _ => by simp [handled_append])
+          rcases hsl (C + credits dep w.self rest) (K + debits dep rest) (cleanOuts_hooks dep hooks) (by
+            simp only [Covered, debits_cons, credits_cons, hd0, hc0] at hcov
+            simp only [Covered, due, holdings, balance, credits_hooks, debits_hooks, hpend] at hcov ⊢
+            omega) with h | hle'
+          · exact Or.inl h
+          · right
+            simp only [Covered, debits_nil, credits_nil, hs1] at hle' ⊢
+            omega
+      cases o with
+      | msg m =>
+        simp only at h1
+        cases hsc : selfCall m with
+        | some em =>
+          rw [hsc] at h1
+          simp only [Res.bind_ok] at h1
+          obtain ⟨⟨s', out⟩, he, hd⟩ := h1
+          exact nested w.self em s' out rfl rfl he hd
+        | none =>
+          rw [hsc] at h1
+          cases m with
+          | bank to amt denom =>
+            simp at h1
+            obtain ⟨b, hb, rfl⟩ := h1
+            refine ⟨⟨hg.ghost, hg.cfg, hg.grant⟩, rfl, id, fun C K hc hcov => ?_⟩
+            have hsp := hc (.bank to amt denom) (List.mem_cons_self ..)
+            right
+            have hh : holdings dep { w with bank := b } = holdings dep w := by
+              unfold holdings
+              split
+              · rfl
+              · rename_i hcw
+                have hne : ¬ denom = dep.denom := by
+                  intro e; simp [spends, hcw, e] at hsp
+                have := (bankSend_get hb w.self dep.denom).2.2
+                rw [if_neg (fun e : dep.denom = denom => hne e.symm)] at this
+                simpa [balance] using this
+            simp only [Covered, debits_cons, credits_cons, outDebit, outCredit, due, hh] at hcov ⊢
+            omega
+          | other tag =>
+            simp only at h1
+            cases hx : ext tag with
+            | none => simp [hx] at h1
+            | some ar =>
+              obtain ⟨add, remove⟩ := ar
+              simp only [hx, Res.bind_ok] at h1
+              obtain ⟨⟨g', outs⟩, _, hd⟩ := h1
+              have : (outs.map fun o => Out.groupHook o.hook) = (outs.map (·.hook)).map Out.groupHook := by simp
+              rw [this] at hd
+              exact grouped g' _ rfl rfl hd
+          | selfExecute id => simp [selfCall] at hsc
+          | selfClose id => simp [selfCall] at hsc
+          | selfVote id v => simp [selfCall] at hsc
+          | selfPropose l => simp [selfCall] at hsc
+          | noContract tag => simp at h1
+      | bank to amt denom =>
+        simp at h1
+        obtain ⟨b, hb, rfl⟩ := h1
+        refine step_leaf ⟨hg.ghost, hg.cfg, hg.grant⟩ rfl rfl rfl ?_
+        have := bankSend_from hb dep.denom
+        unfold holdings outDebit outCredit
+        split
+        · simp
+        · rename_i hcw
+          simp only [balance, hcw, true_and, Nat.add_zero]
+          exact this
+      | cw20Transfer token to amt =>
+        simp [tokenCall] at h1
+        obtain ⟨_, t', out', hex, _, rfl⟩ := h1
+        obtain ⟨hal, _, hb⟩ := cw20_transfer_self hex
+        refine step_leaf ⟨hg.ghost, hg.cfg, fun hc sp => by rw [hal]; exact hg.grant hc sp⟩ rfl rfl rfl ?_
+        unfold holdings outDebit outCredit
+        split
+        · rename_i hcw; simp [hcw]; exact hb
+        · rename_i hcw; simp [hcw, balance]
+      | cw20TransferFrom token owner to amt =>
+        simp [tokenCall] at h1
+        obtain ⟨_, t', out', hex, _, rfl⟩ := h1
+        by_cases hcw : dep.cw20 = true
+        · obtain ⟨_, hn', hb⟩ := cw20_transferFrom_self hex (hg.grant hcw)
+          refine step_leaf ⟨hg.ghost, hg.cfg, fun _ => hn'⟩ rfl rfl rfl ?_
+          simp only [holdings, hcw, if_true, outDebit, outCredit, true_and, Nat.add_zero]
+          rw [hb]; exact Nat.le_refl _
+        · refine step_leaf ⟨hg.ghost, hg.cfg, fun h => absurd h hcw⟩ rfl rfl rfl ?_
+          simp [holdings, hcw, outDebit, outCredit, balance]
+      | groupHook hook =>
+        simp only at h1
+        split at h1
+        · simp only [Res.bind_ok] at h1
+          obtain ⟨⟨s', out⟩, he, hd⟩ := h1
+          exact nested w.groupAddr .memberChangedHook s' out rfl rfl he hd
+        · simp at h1
+
+/-- Who signed the transaction. -/
+def Action.sender : Action → Addr
+  | .flex snd _ _ => snd
+  | .group snd _ => snd
+  | .token snd _ => snd
+
+/-- **Environment guard**: no transaction of the history is signed by the multisig's own address.  (A contract address
+has no key: the multisig acts only through the messages its handlers return, which the runtime dispatches — those are
+covered, at any nesting depth.) -/
+def External (self : Addr) (ops : List Op) : Prop := ∀ op ∈ ops, Action.sender op.act ≠ self
+
+instance (self : Addr) (ops : List Op) : Decidable (External self ops) := by unfold External; infer_instance
+
+/-- The world invariant of the pool accounting: the balance-free part, and — unless an executed proposal spends the
+deposit denomination — holdings ≥ owed. -/
+def PoolInv (dep : Deposit) (self : Addr) (w : World) : Prop :=
+  w.self = self ∧ PoolGood dep w ∧ (Dirty dep w ∨ due dep w ≤ holdings dep w)
+
+theorem pool_tx {ext : Ext} {fuel : Nat} {dep : Deposit} {self : Addr} {w w' : World} {blk : Block} {act : Action}
+    (hq : PoolInv dep self w) (hext : Action.sender act ≠ self) (h : tx ext fuel w blk act = .ok w') :
+    PoolInv dep self w' := by
+  obtain ⟨hself, hg, hcov⟩ := hq
+  cases act with
+  | flex snd funds m =>
+    simp only [tx, Res.bind_ok] at h
+    obtain ⟨b, hb, ⟨s', out⟩, he, hd⟩ := h
+    have hne : snd ≠ w.self := by rw [hself]; exact hext
+    have hgb : PoolGood dep { w with bank := b } := ⟨hg.ghost, hg.cfg, hg.grant⟩
+    have hhold : holdings dep { w with bank := b } =
+        holdings dep w + (if dep.cw20 then 0 else fundsOf dep.denom funds) := by
+      unfold holdings
+      split
+      · rfl
+      · simpa [balance] using moveFunds_get_to hb hne dep.denom
+    obtain ⟨hg2, hfl⟩ := pool_flex (w := { w with bank := b }) hgb he
+    obtain ⟨hg', hs', hdd, hsl⟩ := pool_dispatch ext dep blk fuel _ out w' hg2 hd
+    refine ⟨hs'.trans hself, hg', ?_⟩
+    have hpre : Dirty dep { w with bank := b } ∨
+        due dep { w with bank := b } + 0 + (if dep.cw20 then 0 else fundsOf dep.denom funds) ≤
+          holdings dep { w with bank := b } + 0 := by
+      rcases hcov with ⟨id, p, h1, h2, h3⟩ | hle
+      · exact Or.inl ⟨id, p, h1, h2, h3⟩
+      · right; rw [hhold]; simp only [due] at hle ⊢; omega
+    rcases hfl 0 0 hpre with h | ⟨hc, hle⟩
+    · exact Or.inl (hdd h)
+    · rcases hsl 0 0 hc (by simpa [Covered, due, holdings, balance] using hle) with h | h
+      · exact Or.inl h
+      · right; simpa [Covered] using h
+  | group snd m =>
+    simp only [tx, Res.bind_ok] at h
+    obtain ⟨⟨g', outs⟩, _, hd⟩ := h
+    have hg2 : PoolGood dep { w with group := g', log := w.log ++ [.groupWrite blk.height] } := by
+      refine ⟨⟨hg.ghost.1, fun id => ?_⟩, hg.cfg, hg.grant⟩
+      have := hg.ghost.2 id
+      simpa [handled_append] using this
+    have hmap : (outs.map fun o => Out.groupHook o.hook) = (outs.map (·.hook)).map Out.groupHook := by simp
+    rw [hmap] at hd
+    obtain ⟨hg', hs', hdd, hsl⟩ := pool_dispatch ext dep blk fuel _ _ w' hg2 hd
+    refine ⟨hs'.trans hself, hg', ?_⟩
+    rcases hcov with ⟨id, p, h1, h2, h3⟩ | hle
+    · exact Or.inl (hdd ⟨id, p, List.mem_append_left _ h1, h2, h3⟩)
+    · have hpend : pend (w.log ++ [Event.groupWrite blk.height]) w.flex.core.count = pend w.log w.flex.core.count :=
+        pend_congr _ (fun id _ _ => by simp [handled_append])
+      rcases hsl 0 0 (cleanOuts_hooks dep _) (by
+        simp only [Covered, due, holdings, balance, credits_hooks, debits_hooks, hpend] at hle ⊢
+        omega) with h | h
+      · exact Or.inl h
+      · right; simpa [Covered] using h
+  | token snd m =>
+    simp [tx] at h
+    obtain ⟨t, out, hex, _, rfl⟩ := h
+    have hne : snd ≠ w.self := by rw [hself]; exact hext
+    by_cases hcw : dep.cw20 = true
+    · obtain ⟨hn', hb⟩ := cw20_external hex hne (hg.grant hcw)
+      refine ⟨hself, ⟨hg.ghost, hg.cfg, fun _ => hn'⟩, ?_⟩
+      rcases hcov with ⟨id, p, h1, h2, h3⟩ | hle
+      · exact Or.inl ⟨id, p, h1, h2, h3⟩
+      · right
+        simp only [due, holdings, hcw, if_true] at hle ⊢
+        omega
+    · refine ⟨hself, ⟨hg.ghost, hg.cfg, fun h => absurd h hcw⟩, ?_⟩
+      rcases hcov with ⟨id, p, h1, h2, h3⟩ | hle
+      · exact Or.inl ⟨id, p, h1, h2, h3⟩
+      · right
+        simpa [due, holdings, hcw, balance] using hle
+
+theorem pool_run {ext : Ext} {fuel : Nat} {dep : Deposit} {self : Addr} :
+    ∀ (ops : List Op) (w : World), PoolInv dep self w → External self ops → PoolInv dep self (run ext fuel w ops)
+  | [], w, hq, _ => hq
+  | op :: rest, w, hq, hext => by
+    rw [run_cons]
+    refine pool_run rest _ ?_ (fun o ho => hext o (List.mem_cons_of_mem _ ho))
+    unfold step
+    split
+    · rename_i w' htx; exact pool_tx hq (hext op (List.mem_cons_self ..)) htx
+    · exact hq
+
+/-- The pool invariant holds right after instantiation: nothing is owed yet. -/
+theorem pool_init {m : InstMsg} {s : State} {g : Cw4Group.State} {t : Cw20.State} {bank : AMap (Addr × String) Nat}
+    {self ga ta : Addr} {h0 : Nat} {dep : Deposit} (hi : instantiate m (some g) = .ok s) (hd : s.cfg.deposit = some dep)
+    (hgr : dep.cw20 = true → NoGrant t self) : PoolInv dep self (World.init s g t bank self ga ta h0) := by
+  refine ⟨rfl, ⟨⟨instantiate_inv hi, fun id => by simp [World.init, handled]⟩, hd, hgr⟩, Or.inr ?_⟩
+  have : s.core = Core.empty := by
+    simp only [instantiate, Res.bind_ok] at hi
+    obtain ⟨_, _, _, _, _, _, _, _, hi⟩ := hi
+    simp at hi; subst hi; rfl
+  simp [due, World.init, this, Core.empty, pend]
+
+/-- **C15, pool clause (b): the deposit pool covers what is owed, over every history that does not spend it.**
+Start from any accepted instantiation with a configured deposit `dep`, on top of any group, any token state in which
+the multisig has granted no allowance (needed for a cw20 deposit only), any bank.  Run ANY history of transactions on
+the multisig, the group and the token — any senders other than the multisig's own address (`External`), any funds, any
+blocks, any number of concurrent proposals, nested self-calls and group updates dispatched by executed proposals.  If in
+the resulting world no *executed* proposal carries a message that spends the deposit denomination out of the multisig
+(`NoSpend`: no `BankMsg::Send` of the native deposit denom; the model's message language has no message that reaches the
+cw20 token, so for a cw20 deposit the guard is vacuous), then the multisig's holdings of the deposit denomination are at
+least the Σ of the deposits taken and not yet returned (`owed`: all proposals never Executed/Closed — including those
+stuck by D6). -/
+theorem pool_covers_owed_if_unspent {ext : Ext} {fuel : Nat} {m : InstMsg} {s : State} {g : Cw4Group.State}
+    {t : Cw20.State} {bank : AMap (Addr × String) Nat} {self ga ta : Addr} {h0 : Nat} {dep : Deposit} {ops : List Op}
+    (hi : instantiate m (some g) = .ok s) (hd : s.cfg.deposit = some dep)
+    (hgr : dep.cw20 = true → NoGrant t self) (hext : External self ops)
+    (hns : NoSpend dep (run ext fuel (World.init s g t bank self ga ta h0) ops)) :
+    owed (run ext fuel (World.init s g t bank self ga ta h0) ops) ≤
+      holdings dep (run ext fuel (World.init s g t bank self ga ta h0) ops) := by
+  obtain ⟨_, hg, hcov⟩ := pool_run (ext := ext) (fuel := fuel) ops _ (pool_init (bank := bank) (ga := ga) (ta := ta) (h0 := h0) hi hd hgr) hext
+  rw [owed_eq hg.ghost.1 hg.cfg]
+  rcases hcov with h | h
+  · exact absurd h (not_dirty_of_noSpend hns)
+  · exact h
+
+/-- A decidable form of the guard `NoSpend` (for concrete worlds). -/
+def noSpendB (dep : Deposit) (w : World) : Bool :=
+  w.flex.core.proposals.all fun e => !(w.log.contains (.executed e.1)) || e.2.msgs.all fun m => !(spends dep m)
+
+theorem noSpend_of_check {dep : Deposit} {w : World} (h : noSpendB dep w = true) : NoSpend dep w := by
+  intro id p h1 h2 m hm
+  have hmem := AMap.get?_some_mem h2
+  have := (List.all_eq_true.mp h) (id, p) hmem
+  simp only [Bool.or_eq_true, Bool.not_eq_true', List.contains_eq_mem, decide_eq_false_iff_not, List.all_eq_true] at this
+  rcases this with h | h
+  · exact absurd h1 h
+  · exact h m hm
+
+/-! ### (a) what a Propose / Close / Execute transaction moves, exactly -/
+
+/-- **C15, pool clause (a), taking: a committed `Propose` moves exactly the configured deposit from the proposer into
+the multisig, and nothing else of that denomination.**  Sender other than the multisig itself.
+* native deposit: the whole bank ledger of the new world is the old one with `amount` of `denom` moved from the
+  proposer to the multisig — every other `(account, denom)` entry is unchanged — and the token is untouched;
+* cw20 deposit: the whole balance ledger of the token is the old one with `amount` moved from the proposer to the
+  multisig (the dispatched `TransferFrom`) — every other account unchanged.
+In both cases the multisig's holdings of the deposit denomination grow by exactly `amount`. -/
+theorem deposits_taken_exact {ext : Ext} {fuel : Nat} {w w' : World} {blk : Block} {snd : Addr} {funds : List Coin}
+    {t d : String} {msgs : List Msg} {latest : Option Expiration} {dep : Deposit}
+    (hi : Inv w.flex) (hd : w.flex.cfg.deposit = some dep) (hne : snd ≠ w.self)
+    (h : tx ext fuel w blk (.flex snd funds (.propose t d msgs latest)) = .ok w') :
+    holdings dep w' = holdings dep w + dep.amount ∧ w'.self = w.self ∧
+    (dep.cw20 = false →
+      w'.token = w.token ∧ dep.amount ≤ balance w snd dep.denom ∧
+      ∀ a dn, balance w' a dn =
+        if dn = dep.denom then
+          (if a = w.self then balance w a dn + dep.amount else if a = snd then balance w a dn - dep.amount else balance w a dn)
+        else balance w a dn) ∧
+    (dep.cw20 = true →
+      dep.amount ≤ Cw20.bal w.token snd ∧
+      ∀ a, Cw20.bal w'.token a =
+        if a = w.self then Cw20.bal w.token a + dep.amount else if a = snd then Cw20.bal w.token a - dep.amount
+        else Cw20.bal w.token a) := by
+  have hne' : ¬ w.self = snd := fun e => hne e.symm
+  by_cases hcw : dep.cw20 = true
+  · -- cw20
+    have h' := h
+    simp only [tx, Res.bind_ok] at h'
+    obtain ⟨b, hb, ⟨s', out⟩, he, hdisp⟩ := h'
+    have hout := (propose_takes_exact_deposit hi he).1
+    simp only [hd, hcw, if_true] at hout
+    subst hout
+    obtain ⟨_, t', hex, ht'⟩ := propose_cw20_tx hi hd hcw h
+    obtain ⟨_, _, s1, b1, b2, hded, h1, h2, hs', _⟩ := Cw20.execTransferFrom_inv hex
+    have hself : w'.self = w.self := by
+      cases fuel with
+      | zero => simp [dispatch] at hdisp
+      | succ fuel =>
+        simp only [dispatch, Res.bind_ok] at hdisp
+        obtain ⟨w1, h1', h2'⟩ := hdisp
+        obtain ⟨tt, rfl⟩ := tokenCall_frame h1'
+        cases fuel <;> simp [dispatch] at h2' <;> subst h2' <;> rfl
+    have hbal : ∀ a, Cw20.bal w'.token a =
+        if a = w.self then Cw20.bal w.token a + dep.amount else if a = snd then Cw20.bal w.token a - dep.amount
+        else Cw20.bal w.token a := by
+      intro a
+      have := (Cw20.move_get h1 h2 a).2
+      rw [ht', hs']
+      simp only [Cw20.bal] at this ⊢
+      rw [this]
+      by_cases e1 : a = w.self
+      · subst e1; simp [hne']
+      · by_cases e2 : a = snd
+        · subst e2; simp [e1]
+        · simp [e1, e2]
+    refine ⟨?_, hself, fun hf => absurd hcw (by simp [hf]), fun _ => ⟨(Cw20.move_get h1 h2 snd).1, hbal⟩⟩
+    simp only [holdings, hcw, if_true, hself]
+    rw [hbal w.self]; simp
+  · -- native
+    have hcw' : dep.cw20 = false := by simpa using hcw
+    have h' := h
+    simp only [tx, Res.bind_ok] at h'
+    obtain ⟨b, hb, ⟨s', out⟩, he, hdisp⟩ := h'
+    have hout := (propose_takes_exact_deposit hi he).1
+    simp only [hd, hcw', Bool.false_eq_true, if_false] at hout
+    obtain ⟨hf, rfl⟩ := hout
+    subst hf
+    rw [moveFunds_single (hi.depositPos dep hd)] at hb
+    have hw' : w' = { w with bank := b, flex := s', log := w.log ++ [eventOf w.flex snd (.propose t d msgs latest)] } := by
+      cases fuel <;> simp [dispatch] at hdisp <;> exact hdisp.symm
+    have hbal : ∀ a dn, balance w' a dn =
+        if dn = dep.denom then
+          (if a = w.self then balance w a dn + dep.amount else if a = snd then balance w a dn - dep.amount else balance w a dn)
+        else balance w a dn := by
+      intro a dn
+      have := (bankSend_get hb a dn).2.2
+      subst hw'
+      simp only [balance] at this ⊢
+      rw [this]
+      by_cases e0 : dn = dep.denom
+      · subst e0
+        by_cases e1 : a = w.self
+        · subst e1; simp [hne']
+        · by_cases e2 : a = snd
+          · subst e2; simp [e1]
+          · simp [e1, e2]
+      · simp [e0]
+    refine ⟨?_, by subst hw'; rfl, fun _ => ⟨by subst hw'; rfl, (bankSend_get hb snd dep.denom).2.1, hbal⟩,
+      fun hf => absurd hf hcw⟩
+    have hs : w'.self = w.self := by subst hw'; rfl
+    simp only [holdings, hcw', Bool.false_eq_true, if_false, hs]
+    rw [hbal w.self dep.denom]; simp
+
+/-- **C15, pool clause (a), returning by `Close`.**  A committed `Close` of a proposal whose deposit has
+`refund_failed_proposals = true`, sent by somebody other than the multisig, refund addressed to somebody other than the
+multisig: the pool shrinks by exactly the deposit (after the attached funds, if any, were added) — the transaction is
+exactly `close_refund_tx`: one transfer to the proposer and nothing else; by `refund_at_most_once` it happens at most
+once per proposal. -/
+theorem deposits_returned_exact_close {ext : Ext} {fuel : Nat} {w w' : World} {blk : Block} {snd : Addr}
+    {funds : List Coin} {id : Nat} {p : Proposal} {dep : Deposit}
+    (hp : w.flex.core.proposals.get? id = some p) (hd : p.deposit = some dep) (hrf : dep.refundFailed = true)
+    (hne : snd ≠ w.self) (hpr : p.proposer ≠ w.self)
+    (h : tx ext fuel w blk (.flex snd funds (.close id)) = .ok w') :
+    holdings dep w' + dep.amount = holdings dep w + (if dep.cw20 then 0 else fundsOf dep.denom funds) := by
+  obtain ⟨b0, s', hb0, hrest⟩ := close_refund_tx hp hd hrf h
+  have hpr' : ¬ w.self = p.proposer := fun e => hpr e.symm
+  by_cases hcw : dep.cw20 = true
+  · simp only [hcw, if_true] at hrest
+    obtain ⟨_, t, hex, rfl⟩ := hrest
+    obtain ⟨_, b1, b2, h1, h2, rfl, _⟩ := Cw20.execTransfer_inv hex
+    obtain ⟨hle, hg⟩ := Cw20.move_get h1 h2 w.self
+    simp only [holdings, hcw, if_true, Cw20.bal, hg]
+    simp [hpr']
+    omega
+  · have hcw' : dep.cw20 = false := by simpa using hcw
+    simp only [hcw', Bool.false_eq_true, if_false] at hrest
+    obtain ⟨b1, hb1, rfl⟩ := hrest
+    obtain ⟨_, hle, hg⟩ := bankSend_get hb1 w.self dep.denom
+    have hf := moveFunds_get_to hb0 hne dep.denom
+    have hg' : (b1.get? (w.self, dep.denom)).getD 0 = (b0.get? (w.self, dep.denom)).getD 0 - dep.amount := by
+      rw [hg]; simp [hpr']
+    simp only [holdings, hcw', Bool.false_eq_true, if_false, balance, hg']
+    omega
+
+/-- **C15, pool clause (a), returning by `Execute`.**  A committed `Execute` of a proposal with a deposit: right after
+the refund step — before any of the proposal's own messages is dispatched — the pool has shrunk by exactly the deposit
+(after the attached funds were added); the rest of the transaction is the dispatch of the proposal's messages from that
+world. -/
+theorem deposits_returned_exact_execute {ext : Ext} {fuel : Nat} {w w' : World} {blk : Block} {snd : Addr}
+    {funds : List Coin} {id : Nat} {p : Proposal} {dep : Deposit}
+    (hp : w.flex.core.proposals.get? id = some p) (hd : p.deposit = some dep)
+    (hne : snd ≠ w.self) (hpr : p.proposer ≠ w.self)
+    (h : tx ext fuel w blk (.flex snd funds (.execute id)) = .ok w') :
+    ∃ wmid fuel', wmid.self = w.self ∧ wmid.log = w.log ++ [.executed id] ∧
+      holdings dep wmid + dep.amount = holdings dep w + (if dep.cw20 then 0 else fundsOf dep.denom funds) ∧
+      dispatch ext fuel' wmid blk (p.msgs.map Out.msg) = .ok w' := by
+  have hpr' : ¬ w.self = p.proposer := fun e => hpr e.symm
+  by_cases hcw : dep.cw20 = true
+  · obtain ⟨_, b0, t, s', fuel', hb0, hex, _, hdisp⟩ := execute_cw20_tx hp hd hcw h
+    refine ⟨{ w with bank := b0, token := t, flex := s', log := w.log ++ [.executed id] }, fuel', rfl, rfl, ?_, hdisp⟩
+    obtain ⟨_, b1, b2, h1, h2, rfl, _⟩ := Cw20.execTransfer_inv hex
+    obtain ⟨hle, hg⟩ := Cw20.move_get h1 h2 w.self
+    have hg' : (b2.get? w.self).getD 0 = (w.token.balances.get? w.self).getD 0 - dep.amount := by
+      rw [hg]; simp [hpr']
+    simp only [holdings, hcw, if_true, Cw20.bal, hg']
+    omega
+  · have hcw' : dep.cw20 = false := by simpa using hcw
+    obtain ⟨b0, b1, s', fuel', hb0, hb1, _, hdisp⟩ := execute_native_tx hp hd hcw' h
+    refine ⟨{ w with bank := b1, flex := s', log := w.log ++ [.executed id] }, fuel', rfl, rfl, ?_, hdisp⟩
+    obtain ⟨_, hle, hg⟩ := bankSend_get hb1 w.self dep.denom
+    have hf := moveFunds_get_to hb0 hne dep.denom
+    have hg' : (b1.get? (w.self, dep.denom)).getD 0 = (b0.get? (w.self, dep.denom)).getD 0 - dep.amount := by
+      rw [hg]; simp [hpr']
+    simp only [holdings, hcw', Bool.false_eq_true, if_false, balance, hg']
+    omega
+
+/-! ### (c) under the guard the refund cannot fail for lack of funds -/
+
+theorem bankSend_isOk {bank : AMap (Addr × String) Nat} {frm to : Addr} {amt : Nat} {denom : String}
+    (h0 : amt ≠ 0) (hle : amt ≤ (bank.get? (frm, denom)).getD 0)
+    (hcap : (bank.get? (to, denom)).getD 0 + amt ≤ U128_MAX) :
+    ∃ b, Cw3Fixed.bankSend bank frm to amt denom = .ok b := by
+  have hcap' : (((bank.set (frm, denom) ((bank.get? (frm, denom)).getD 0 - amt)).get? (to, denom)).getD 0) + amt ≤ U128_MAX := by
+    by_cases e : frm = to
+    · subst e; simp; omega
+    · have : (frm, denom) ≠ (to, denom) := by intro x; cases x; exact e rfl
+      rw [AMap.get?_set_ne _ _ _ _ this]; exact hcap
+  simp [Cw3Fixed.bankSend, h0, hle, hcap']
+
+theorem cw20_transfer_isOk {t : Cw20.State} {blk : Block} {frm to : Addr} {amt : Nat}
+    (hle : amt ≤ Cw20.bal t frm) (hcap : Cw20.bal t to + amt ≤ U128_MAX) :
+    ∃ t', Cw20.execute t blk frm (.transfer ⟨true, to⟩ amt) = .ok (t', []) := by
+  simp only [Cw20.bal] at hle hcap
+  have hcap' : (((t.balances.set frm ((t.balances.get? frm).getD 0 - amt)).get? to).getD 0) + amt ≤ U128_MAX := by
+    by_cases e : frm = to
+    · subst e; simp; omega
+    · rw [AMap.get?_set_ne _ _ _ _ e]; exact hcap
+  simp [Cw20.execute, Cw20.execTransfer, Cw20.debit, Cw20.credit, hle, hcap']
+
+theorem mem_unreturned {w : World} {id : Nat} :
+    id ∈ unreturned w ↔ (1 ≤ id ∧ id ≤ w.flex.core.count) ∧ handled w.log id = 0 := by
+  simp [unreturned, List.mem_range'_1]; omega
+
+theorem pend_pos {log : List Event} {id : Nat} (h0 : handled log id = 0) : ∀ n, 1 ≤ id → id ≤ n → 1 ≤ pend log n
+  | 0, h, h' => by omega
+  | n + 1, h, h' => by
+    simp only [pend]
+    by_cases e : id = n + 1
+    · subst e; simp [h0]
+    · have := pend_pos h0 n h (by omega); omega
+
+/-- **C15, pool clause (c): under the guard a refund never fails for lack of funds.**  Same setting as
+`pool_covers_owed_if_unspent`.  In the resulting world, for every proposal whose deposit is still owed (never
+Executed/Closed), the multisig holds at least one deposit of the deposit denomination; hence the transfer that the
+refund message of `Execute`/`Close` dispatches passes its debit check and succeeds whenever the recipient can receive
+(its balance plus the amount fits `Uint128` — the only other way the bank send / the token's `Transfer` can fail):
+* native: `BankMsg::Send { to, amount denom }` from the multisig succeeds,
+* cw20: the token's `Transfer { recipient: to, amount }` sent by the multisig succeeds. -/
+theorem refund_never_fails_for_lack_of_funds_guarded {ext : Ext} {fuel : Nat} {m : InstMsg} {s : State}
+    {g : Cw4Group.State} {t : Cw20.State} {bank : AMap (Addr × String) Nat} {self ga ta : Addr} {h0 : Nat}
+    {dep : Deposit} {ops : List Op}
+    (hi : instantiate m (some g) = .ok s) (hd : s.cfg.deposit = some dep)
+    (hgr : dep.cw20 = true → NoGrant t self) (hext : External self ops)
+    (hns : NoSpend dep (run ext fuel (World.init s g t bank self ga ta h0) ops))
+    {id : Nat} (hid : id ∈ unreturned (run ext fuel (World.init s g t bank self ga ta h0) ops)) :
+    let w := run ext fuel (World.init s g t bank self ga ta h0) ops
+    dep.amount ≤ holdings dep w ∧
+    (dep.cw20 = false → ∀ to, balance w to dep.denom + dep.amount ≤ U128_MAX →
+      ∃ b, Cw3Fixed.bankSend w.bank w.self to dep.amount dep.denom = .ok b) ∧
+    (dep.cw20 = true → ∀ to blk, Cw20.bal w.token to + dep.amount ≤ U128_MAX →
+      ∃ t', Cw20.execute w.token blk w.self (.transfer ⟨true, to⟩ dep.amount) = .ok (t', [])) := by
+  intro w
+  have hcov := pool_covers_owed_if_unspent (ext := ext) (fuel := fuel) (bank := bank) (ga := ga) (ta := ta) (h0 := h0)
+    hi hd hgr hext hns
+  obtain ⟨_, hg, _⟩ := pool_run (ext := ext) (fuel := fuel) ops _
+    (pool_init (bank := bank) (ga := ga) (ta := ta) (h0 := h0) hi hd hgr) hext
+  rw [owed_eq hg.ghost.1 hg.cfg] at hcov
+  obtain ⟨hr, hh⟩ := mem_unreturned.mp hid
+  have hpos := pend_pos hh _ hr.1 hr.2
+  have hle : dep.amount ≤ holdings dep w := by
+    have h1 : dep.amount * 1 ≤ dep.amount * pend w.log w.flex.core.count := Nat.mul_le_mul_left _ hpos
+    exact Nat.le_trans (by omega) (Nat.le_trans h1 hcov)
+  have hpos0 := hg.ghost.1.depositPos dep hg.cfg
+  refine ⟨hle, fun hcw to hcap => ?_, fun hcw to blk hcap => ?_⟩
+  · simp only [holdings, hcw, Bool.false_eq_true, if_false, balance] at hle
+    exact bankSend_isOk hpos0 hle hcap
+  · simp only [holdings, hcw, if_true] at hle
+    exact cw20_transfer_isOk hle hcap
+
+/-- **Clause (c) at transaction level: under the guard a `Close` that the handler accepts commits.**  In a world that
+satisfies the pool invariant and in which no executed proposal spends the deposit denomination, if the `Close` handler
+returns `Ok` (no funds attached), the recipient of the refund can receive it, there is fuel for one message, and — cw20
+deposit — the deposit token is the world's token contract, then the whole transaction succeeds: the refund dispatch
+cannot fail.  (Compare `pool_guard_necessary`: without the guard the handler returns `Ok` and the transaction fails.) -/
+theorem close_tx_commits_guarded {ext : Ext} {fuel : Nat} {dep : Deposit} {self : Addr} {w : World} {blk : Block}
+    {snd : Addr} {id : Nat} {p : Proposal} {s' : State} {out : List Out}
+    (hq : PoolInv dep self w) (hns : NoSpend dep w)
+    (hp : w.flex.core.proposals.get? id = some p)
+    (he : execute w.flex w.group w.self blk snd [] (.close id) = .ok (s', out))
+    (hcapN : dep.cw20 = false → balance w p.proposer dep.denom + dep.amount ≤ U128_MAX)
+    (hcapT : dep.cw20 = true → dep.denom = w.tokenAddr ∧ Cw20.bal w.token p.proposer + dep.amount ≤ U128_MAX) :
+    (tx ext (fuel + 1) w blk (.flex snd [] (.close id))).isOk = true := by
+  obtain ⟨_, hg, hcov⟩ := hq
+  have hi := hg.ghost.1
+  have hle0 : due dep w ≤ holdings dep w := by
+    rcases hcov with h | h
+    · exact absurd h (not_dirty_of_noSpend hns)
+    · exact h
+  obtain ⟨_, hc⟩ := execute_cases he
+  rcases hc with ⟨_, _, _, _, _, _, _, hm, _⟩ | ⟨_, _, hm, _⟩ | ⟨_, _, _, hm, _⟩ | ⟨id0, p1, hm, hpp, hcl, hout⟩ | ⟨hm, _⟩ <;>
+    cases hm
+  rw [hp] at hpp; cases hpp
+  obtain ⟨p0, st, hp0, _, hnr, _, _, _, _, _⟩ := close_spec hcl
+  rw [hp] at hp0; cases hp0
+  have hrange := (hi.wf.ids id).mp (by rw [hp]; rfl)
+  have hh : handled w.log id = 0 := by
+    obtain ⟨hle, hfin⟩ := hg.ghost.2 id
+    rcases Nat.lt_or_ge (handled w.log id) 1 with h | h
+    · omega
+    · have := hfin (by omega)
+      simp [isFinal, hp] at this
+      rcases this with h | h <;> simp_all
+  have hpos := pend_pos hh _ hrange.1 hrange.2
+  have hle : dep.amount ≤ holdings dep w := by
+    have : dep.amount * 1 ≤ dep.amount * pend w.log w.flex.core.count := Nat.mul_le_mul_left _ hpos
+    simp only [due] at hle0
+    omega
+  have hdep : p.deposit = some dep := by rw [hi.propDeposit id p hp, hg.cfg]
+  have hpos0 := hi.depositPos dep hg.cfg
+  simp only [tx, moveFunds, List.isEmpty_nil, if_true, he]
+  subst hout
+  simp only [hdep]
+  show (dispatch ext (fuel + 1) _ blk _).isOk = true
+  split
+  · -- the refund is dispatched
+    by_cases hcw : dep.cw20 = true
+    · obtain ⟨htok, hcap⟩ := hcapT hcw
+      simp only [holdings, hcw, if_true] at hle
+      obtain ⟨t', ht'⟩ := cw20_transfer_isOk (blk := blk) hle hcap
+      simp [refundMsg, hcw, dispatch, tokenCall, htok, ht', bind, Except.bind, check, pure, Except.pure]
+      cases fuel <;> simp [dispatch, Res.isOk]
+    · have hcw' : dep.cw20 = false := by simpa using hcw
+      simp only [holdings, hcw', Bool.false_eq_true, if_false, balance] at hle
+      obtain ⟨b, hb⟩ := bankSend_isOk hpos0 hle (hcapN hcw')
+      simp [refundMsg, hcw', dispatch, hb, bind, Except.bind, pure, Except.pure]
+      cases fuel <;> simp [dispatch, Res.isOk]
+  · simp [dispatch, Res.isOk]
+
+/-! ### (d) the guard is necessary; non-vacuity -/
+
+namespace CexPool
+
+/-- The configured deposit of `Cex.inst`: 5ucosm, native, refunds of failed proposals enabled. -/
+def dep : Deposit := ⟨5, "ucosm", false, true⟩
+
+/-- `a` and `b` hold 20ucosm each, the multisig holds 3uatom and no ucosm. -/
+def world0 : World :=
+  World.init Cex.flex0 Cex.group0 Cex.token0 [(("a", "ucosm"), 20), (("b", "ucosm"), 20), (("ms", "uatom"), 3)] "ms" "grp" "tok" 5
+
+/-- Two concurrent deposit-paying proposals; proposal 1 — which pays 5ucosm of the treasury to `x` — passes and is
+executed (its own deposit is refunded first, then the other proposal's deposit leaves with the payment). -/
+def opsSpend : List Op :=
+  [⟨⟨10, 0⟩, .flex "a" [⟨5, "ucosm"⟩] (.propose "t" "d" [.bank "x" 5 "ucosm"] none)⟩,
+   ⟨⟨10, 0⟩, .flex "b" [⟨5, "ucosm"⟩] (.propose "t" "d" [] none)⟩,
+   ⟨⟨11, 0⟩, .flex "b" [] (.vote 1 .yes)⟩,
+   ⟨⟨12, 0⟩, .flex "x" [] (.execute 1)⟩]
+
+/-- The same history, but proposal 1 pays 3uatom (not the deposit denomination). -/
+def opsClean : List Op :=
+  [⟨⟨10, 0⟩, .flex "a" [⟨5, "ucosm"⟩] (.propose "t" "d" [.bank "x" 3 "uatom"] none)⟩,
+   ⟨⟨10, 0⟩, .flex "b" [⟨5, "ucosm"⟩] (.propose "t" "d" [] none)⟩,
+   ⟨⟨11, 0⟩, .flex "b" [] (.vote 1 .yes)⟩,
+   ⟨⟨12, 0⟩, .flex "x" [] (.execute 1)⟩]
+
+def wSpend : World := run Cex.noExt 10 world0 opsSpend
+def wClean : World := run Cex.noExt 10 world0 opsClean
+
+end CexPool
+
+example : Cex.flex0.cfg.deposit = some CexPool.dep := by decide
+
+/-- **C15, pool clause (d): the guard `NoSpend` is necessary — machine-checked.**  (The scenario of
+`corpus/C15/close_when_treasury_short.ops`.)  Every transaction is sent by an outsider (`External`); proposal 1 spends
+5ucosm of the treasury and is executed, so the guard fails; afterwards the multisig holds 0ucosm while the 5ucosm
+deposit of proposal 2 is still owed.  Proposal 2 expires stored `Open`; at block 20 the `Close` *handler* returns `Ok`
+with the refund message, but the *transaction* fails (the bank send is not covered) and the world is rolled back: the
+proposal stays closable and its deposit stays unrecoverable as long as the treasury is short.  Only a `Close` that
+brings the missing 5ucosm itself goes through. -/
+theorem pool_guard_necessary :
+    External "ms" CexPool.opsSpend ∧ noSpendB CexPool.dep CexPool.wSpend = false ∧
+    unreturned CexPool.wSpend = [2] ∧ owed CexPool.wSpend = 5 ∧ holdings CexPool.dep CexPool.wSpend = 0 ∧
+    ((execute CexPool.wSpend.flex CexPool.wSpend.group "ms" ⟨20, 0⟩ "x" [] (.close 2)).toOption.map (·.2))
+      = some [Out.bank "b" 5 "ucosm"] ∧
+    (tx Cex.noExt 10 CexPool.wSpend ⟨20, 0⟩ (.flex "x" [] (.close 2))).isOk = false ∧
+    (step Cex.noExt 10 CexPool.wSpend ⟨⟨20, 0⟩, .flex "x" [] (.close 2)⟩).flex.core = CexPool.wSpend.flex.core ∧
+    ((tx Cex.noExt 10 CexPool.wSpend ⟨20, 0⟩ (.flex "x" [⟨5, "ucosm"⟩] (.close 2))).toOption.map fun w' =>
+      (balance w' "b" "ucosm", balance w' "ms" "ucosm")) = some (20, 0) := by
+  decide
+
+/-- The counterexample really is a case of `Dirty`: the executed proposal 1 carries a spending message. -/
+example : Dirty CexPool.dep CexPool.wSpend :=
+  ⟨1, ⟨"t", "d", 10, .atHeight 15, [.bank "x" 5 "ucosm"], .executed, .absoluteCount 3, 5, ⟨3, 0, 0, 0⟩, "a", some CexPool.dep⟩,
+    by decide, by decide, _, List.mem_cons_self .., rfl⟩
+
+/-- **Non-vacuity of `pool_covers_owed_if_unspent` and `refund_never_fails_for_lack_of_funds_guarded`** (native
+deposit): the hypotheses hold on a history with two concurrent deposit-paying proposals one of which is executed and
+pays out another denom; proposal 2's deposit is still owed, and the theorems give `5 = owed ≤ holdings = 5`, and that
+the refund to `b` cannot fail. -/
+example :
+    owed CexPool.wClean ≤ holdings CexPool.dep CexPool.wClean ∧
+    (unreturned CexPool.wClean, owed CexPool.wClean, holdings CexPool.dep CexPool.wClean, handled CexPool.wClean.log 1)
+      = ([2], 5, 5, 1) ∧
+    ∃ b, Cw3Fixed.bankSend CexPool.wClean.bank CexPool.wClean.self "b" 5 "ucosm" = .ok b :=
+  ⟨pool_covers_owed_if_unspent (ext := Cex.noExt) (fuel := 10) (m := Cex.inst) (g := Cex.group0) (dep := CexPool.dep)
+      (ops := CexPool.opsClean) (self := "ms") rfl (by decide) (by intro h; cases h) (by decide) (noSpend_of_check (by decide)),
+   by decide,
+   (refund_never_fails_for_lack_of_funds_guarded (ext := Cex.noExt) (fuel := 10) (m := Cex.inst) (g := Cex.group0)
+      (dep := CexPool.dep) (ops := CexPool.opsClean) (self := "ms") (t := Cex.token0)
+      (bank := [(("a", "ucosm"), 20), (("b", "ucosm"), 20), (("ms", "uatom"), 3)]) (ga := "grp") (ta := "tok") (h0 := 5)
+      rfl (by decide) (by intro h; cases h) (by decide) (noSpend_of_check (by decide)) (id := 2) (by decide)).2.1 rfl "b" (by decide)⟩
+
+/-- Non-vacuity of `close_tx_commits_guarded`, `deposits_taken_exact`, `deposits_returned_exact_close`: in the clean
+world the `Close` of the expired proposal 2 commits and returns the 5ucosm to `b`. -/
+example :
+    ((tx Cex.noExt 10 CexPool.wClean ⟨20, 0⟩ (.flex "x" [] (.close 2))).toOption.map fun w' =>
+      (balance w' "b" "ucosm", holdings CexPool.dep w', owed w')) = some (20, 0, 0) := by
+  decide
+
+/-- **Non-vacuity for a cw20 deposit** (`pool_covers_owed_if_unspent` with `dep.cw20 = true`): the token starts with no
+allowance at all (so the multisig has granted none), `a` grants the multisig an allowance and proposes; the deposit
+pulled by `TransferFrom` is owed and covered. -/
+example :
+    let w := run Cex.noExt 10 Cex20.world0 (Cex20.ops.take 2)
+    owed w ≤ holdings ⟨5, "tok", true, true⟩ w ∧ (owed w, holdings ⟨5, "tok", true, true⟩ w) = (5, 5) :=
+  ⟨pool_covers_owed_if_unspent (ext := Cex.noExt) (fuel := 10) (m := Cex20.inst) (g := Cex.group0)
+      (dep := ⟨5, "tok", true, true⟩) (ops := Cex20.ops.take 2) (self := "ms") (t := Cex20.token0) rfl (by decide)
+      (fun _ sp => rfl) (by decide) (noSpend_of_check (by decide)),
+   by decide⟩
+
+/-! ### the two environment guards are used: what happens without them -/
+
+namespace CexGuards
+
+/-- a group in which the multisig's own address `ms` is a member -/
+def groupSelf : Cw4Group.State :=
+  match Cw4Group.instantiate ⟨some ⟨true, "adm"⟩, [(⟨true, "ms"⟩, 1), (⟨true, "b"⟩, 2), (⟨true, "c"⟩, 2)]⟩ 5 with
+  | .ok g => g
+  | .error _ => Cw4Group.State.empty
+
+def flexSelf : State := match instantiate Cex.inst (some groupSelf) with | .ok s => s | .error _ => default
+
+/-- the multisig holds 5ucosm of its own -/
+def worldSelf : World := World.init flexSelf groupSelf Cex.token0 [(("ms", "ucosm"), 5)] "ms" "grp" "tok" 5
+
+/-- two Propose transactions *signed by the multisig's own address*, each "paying" the deposit from `ms` to `ms` -/
+def opsSelf : List Op :=
+  [⟨⟨10, 0⟩, .flex "ms" [⟨5, "ucosm"⟩] (.propose "t" "d" [] none)⟩,
+   ⟨⟨10, 0⟩, .flex "ms" [⟨5, "ucosm"⟩] (.propose "t" "d" [] none)⟩]
+
+/-- a cw20 token in which `a` holds 20 and the multisig has granted `x` an allowance of 5 -/
+def tokenGrant : Cw20.State :=
+  { supply := 20, mint := none, balances := [("a", 20)], allow := [(("ms", "x"), ⟨5, .never⟩)],
+    allowSp := [(("x", "ms"), ⟨5, .never⟩)], version := ⟨"crates.io:cw20-base", 2, 0, 0⟩ }
+
+def worldGrant : World := World.init Cex20.flex0 Cex.group0 tokenGrant [] "ms" "grp" "tok" 5
+
+/-- `a` pays the cw20 deposit; then `x` uses the allowance the multisig had granted and pulls the 5 tokens out -/
+def opsGrant : List Op :=
+  [⟨⟨10, 0⟩, .token "a" (.increaseAllowance ⟨true, "ms"⟩ 5 none)⟩,
+   ⟨⟨10, 0⟩, .flex "a" [] (.propose "t" "d" [] none)⟩,
+   ⟨⟨11, 0⟩, .token "x" (.transferFrom ⟨true, "ms"⟩ ⟨true, "x"⟩ 5)⟩]
+
+end CexGuards
+
+/-- **The guard `External` is used** (machine-checked): if transactions could be signed by the multisig's own address,
+two Proposes "paying" the deposit from the multisig to itself leave 10ucosm owed against holdings of 5 — with no
+proposal executed at all (`NoSpend` holds). -/
+example : External "ms" CexGuards.opsSelf = False ∧
+    noSpendB CexPool.dep (run Cex.noExt 10 CexGuards.worldSelf CexGuards.opsSelf) = true ∧
+    owed (run Cex.noExt 10 CexGuards.worldSelf CexGuards.opsSelf) = 10 ∧
+    holdings CexPool.dep (run Cex.noExt 10 CexGuards.worldSelf CexGuards.opsSelf) = 5 := by
+  refine ⟨by simp [External, CexGuards.opsSelf, Action.sender], by decide, by decide, by decide⟩
+
+/-- **The guard "the multisig has granted no allowance" is used** (cw20 deposit, machine-checked): with an allowance
+granted by the multisig in the initial token state, an outsider pulls the deposit out by `TransferFrom`; every sender is
+external and nothing was executed, yet 5 tokens are owed against holdings of 0. -/
+example : External "ms" CexGuards.opsGrant ∧ ¬ NoGrant CexGuards.tokenGrant "ms" ∧
+    noSpendB ⟨5, "tok", true, true⟩ (run Cex.noExt 10 CexGuards.worldGrant CexGuards.opsGrant) = true ∧
+    owed (run Cex.noExt 10 CexGuards.worldGrant CexGuards.opsGrant) = 5 ∧
+    holdings ⟨5, "tok", true, true⟩ (run Cex.noExt 10 CexGuards.worldGrant CexGuards.opsGrant) = 0 := by
+  refine ⟨by decide, fun h => ?_, by decide, by decide, by decide⟩
+  have := h "x"
+  simp [CexGuards.tokenGrant, AMap.get?] at this
 
 end CwPlus.Props.C15
